@@ -48,7 +48,7 @@ def case_strategy(draw, variant):
     method = draw(st.sampled_from(METHODS))
     temporal = draw(st.sampled_from([False, False, True])) and method in ("min", "max", "first", "last", "count", "size", "cummin", "cummax")
     return {"n": n, "k1": k1, "k2": k2, "fl": fl, "it": it, "bo": bo, "dt": dt, "by": by, "index": index, "obj": obj, "method": method,
-            "temporal": temporal, "window": draw(st.integers(1, 3)), "min_periods": draw(st.sampled_from([None, 1])), "narg": draw(st.integers(0, 3))}
+            "temporal": temporal, "window": draw(st.integers(1, 3)), "min_periods": draw(st.sampled_from([None, 1, 0])), "narg": draw(st.integers(0, 3))}
 
 
 def build(case):
